@@ -413,12 +413,16 @@ fn run_case(out: &mut Out, run: u64, case: &Value) {
                 "scripted" => Box::new(TrigScripted { pos: Arc::new(Mutex::new(0)) }),
                 other => panic!("unknown trigger kind {other}"),
             };
+            if r["src"].as_str() == Some("PG") {
+                // the state itself is logged (IdLens): its own Serialize implementation produces the entry
+                cfg.with_auto::<Progress<ValueOf<K0>>>(trigger);
+                continue;
+            }
             let extractor = match r["src"].as_str().unwrap() {
                 "K0" => ValueOf::<K0>::entry::<P>(),
                 "U" => ValueOf::<U>::entry::<P>(),
                 "IT" => ValueOf::<Iterations>::entry::<P>(),
                 "MISSING" => ValueOf::<Missing>::entry::<P>(),
-                "PG" => ValueOf::<Progress<ValueOf<K0>>>::entry::<P>(),
                 other => panic!("unknown source {other}"),
             };
             cfg.with(trigger, extractor);
